@@ -54,6 +54,12 @@ pub enum CtErr {
     Mine(u8),
     Conv(u8),
 }
+impl core::fmt::Display for CtErr {
+    fn fmt(&self, _f: &mut core::fmt::Formatter<'_>) -> core::fmt::Result {
+        Ok(())
+    }
+}
+impl std::error::Error for CtErr {}
 impl From<StdError> for CtErr {
     fn from(e: StdError) -> Self {
         CtErr::Std(e)
